@@ -152,7 +152,13 @@ func (g gracefulFake) Stop() error {
 		r.c.ParkIf(fmt.Sprintf("hook.stop/%s/%s#%d", g.inst, g.name, r.nextSeq()), "stop:"+g.inst, r.noLockHeld)
 	}
 	r.ev("stop", g.inst, g.name)
+	// as with net/http: Serve returns as soon as the stop begins (the listener is
+	// closed), while Stop itself goes on until the connections have drained
 	g.once.Do(func() { close(g.stopCh) })
+	if !r.cleanup {
+		r.c.ParkIf(fmt.Sprintf("hook.drain/%s/%s#%d", g.inst, g.name, r.nextSeq()), "stop:"+g.inst, r.noLockHeld)
+	}
+	r.ev("stop-end", g.inst, g.name)
 	if g.stopErr && !r.cleanup {
 		// (as a net/http server does when the grace period ran out on a busy connection)
 		r.c.Fault("server-stop-reports-error")
@@ -225,6 +231,12 @@ func init() {
 	}})
 	casket.RegisterPlugin("failsetup", casket.Plugin{ServerType: "fake", Action: func(c *casket.Controller) error {
 		for c.Next() {
+			if c.NextArg() && c.Val() == "panic" {
+				if lc != nil {
+					lc.c.Fault("directive-setup-panics")
+				}
+				panic("injected setup panic")
+			}
 			return c.Err("injected setup failure")
 		}
 		return nil
@@ -271,6 +283,9 @@ func (r *lcRig) text(cfg *lcCfg) string {
 	}
 	if cfg.kind == rkSetup {
 		b.WriteString("\tfailsetup\n")
+	}
+	if cfg.kind == rkPanic {
+		b.WriteString("\tfailsetup panic\n")
 	}
 	b.WriteString("}\n")
 	return b.String()
@@ -414,7 +429,10 @@ func runLifecycle(c *sim.Ctl) {
 	for i := 0; i < nops; i++ {
 		k := rkOK
 		if st.Draw(2) == 1 {
-			k = 1 + st.Draw(5)
+			k = 1 + st.Draw(6)
+			if k == 6 {
+				k = rkPanic
+			}
 		}
 		opKinds = append(opKinds, k)
 		kinds = append(kinds, rkNames[k])
@@ -478,7 +496,7 @@ func runLifecycle(c *sim.Ctl) {
 				return
 			}
 			r.endAttempt(err == nil, fmt.Sprint(err))
-			if err == nil {
+			if err == nil && ni != nil {
 				r.inst = ni
 			}
 		}
@@ -615,6 +633,9 @@ func (r *lcRig) endAttempt(ok bool, msg string) {
 	if ok != (a.kind == rkOK) && r.shutSig < 0 {
 		if a.kind == rkOK {
 			r.c.Violate("C16/valid-reload-failed", "", "reload to valid config %s failed: %s", a.neu, msg)
+		} else if a.kind == rkPanic {
+			r.c.Violate("C16/panicking-reload-reported-as-success", "", "reload %s->%s, whose configuration makes a directive's setup panic, was reported as successful", a.old, a.neu)
+			ok = false
 		} else {
 			panic(fmt.Sprintf("harness: reload of kind %s unexpectedly succeeded", rkNames[a.kind]))
 		}
@@ -917,6 +938,14 @@ func (r *lcRig) check() {
 			}
 			if x.kind == "serve-end" {
 				delete(open, x.inst+"/"+x.arg)
+			}
+			// a graceful server has stopped when its Stop has returned (connections drained),
+			// not when its Serve loop has returned
+			if x.kind == "stop" {
+				open[x.inst+"/"+x.arg+" (draining)"] = true
+			}
+			if x.kind == "stop-end" {
+				delete(open, x.inst+"/"+x.arg+" (draining)")
 			}
 		}
 		// servers of discarded instances (failed reload) are not part of the lineage
